@@ -19,6 +19,8 @@ mod p07;
 mod p11;
 mod p12;
 mod p16;
+mod p18;
+mod p19;
 mod refimpl;
 mod walk;
 
@@ -47,6 +49,8 @@ macro_rules! dispatch {
             "C11" => $f::<p11::C11>($($arg),*),
             "C12" => $f::<p12::C12>($($arg),*),
             "C16" => $f::<p16::C16>($($arg),*),
+            "C18" => $f::<p18::C18>($($arg),*),
+            "C19" => $f::<p19::C19>($($arg),*),
             #[cfg(lzma_rust2_verif_shuttle)]
             "C08" => $f::<mt::C08>($($arg),*),
             #[cfg(lzma_rust2_verif_shuttle)]
